@@ -61,6 +61,10 @@ func omnibus(run *Run, o Omni, visit Visit) {
 			}
 		}
 		scs = append(scs, blockAddrScenario(r))
+		if bi < 4 {
+			// a missing value behind every constraint kind, every offset (deterministic)
+			scs = append(scs, missingValueKindsScenario(bi))
+		}
 		if bi%3 == 0 {
 			// fixed-value constraints of every shape against matching / wrong-typed / surplus written values, every
 			// cursor offset (own random stream: the scenarios above and below do not move)
